@@ -557,6 +557,21 @@ def write_report(prop, viol, path, header):
             if others:
                 f.write("- also triggered by: %s\n" % ", ".join(map(str, others[:30])))
             f.write("- known_findings line: `%s`\n\n" % json.dumps({"property": prop, "key": key, "status": "known", "what": detail[:220]}))
+    combine_reports()
+
+
+MARK = "<!-- C03 section (copied from out/c03_findings_report.md) -->"
+
+
+def combine_reports():
+    """out/c18_findings_report.md carries the C03 keys too (the lead writes known_findings.jsonl from it)"""
+    p18 = os.path.join(common.OUT, "c18_findings_report.md")
+    p03 = os.path.join(common.OUT, "c03_findings_report.md")
+    if not (os.path.exists(p18) and os.path.exists(p03)):
+        return
+    head = open(p18).read().split(MARK)[0].rstrip() + "\n\n"
+    with open(p18, "w") as f:
+        f.write(head + MARK + "\n\n" + open(p03).read())
 
 
 def replay(path):
